@@ -587,7 +587,7 @@ Spec == Init /\ [][Next]_vars
 \* every goroutine is scheduled fairly; the caller's cancel is not
 Fairness ==
   /\ WF_vars(EngStep) /\ WF_vars(WaitReturn) /\ WF_vars(UserCancelDo)
-  /\ \A pl \in Plans : \A p \in 1..Len(pl.pools) :
+  /\ \A p \in UNION {1..Len(pl.pools) : pl \in Plans} :
        /\ WF_vars(p \in Pools /\ PoolStep(p)) /\ WF_vars(p \in Pools /\ ProvStep(p))
        /\ WF_vars(p \in Pools /\ AggStep(p)) /\ WF_vars(p \in Pools /\ StartStep(p))
        /\ WF_vars(p \in Pools /\ AwaitStep(p))
